@@ -134,7 +134,8 @@ func execGreedy(g *graph.DGraph, params graph.Params) {
 
 	// reverse edges that point right
 	for _, n := range g.Nodes {
-		for _, e := range n.Out {
+		// iterate over a copy: Reverse removes e from n.Out, which would make the loop skip the next out-edge
+		for _, e := range slices.Clone(n.Out) {
 			if p.arcdiag[n] > p.arcdiag[e.To] {
 				e.Reverse()
 			}
